@@ -10,7 +10,7 @@ PROPS = "props/C03.v"
 SPEC_NAMES = set("""length keys add reverse type flatten min max sort unique transpose explode implode
 ascii_downcase ascii_upcase utf8bytelength tonumber abs has contains inside indices index rindex startswith
 endswith ltrimstr rtrimstr trimstr getpath split _add _subtract _multiply _divide _modulo _equal _notequal
-_less _greater _lesseq _greatereq _alternative _index _slice _min_by _max_by _plus _negate toboolean isnan isinfinite isfinite isnormal ltrim rtrim trim floor ceil trunc round rint nearbyint fabs sqrt""".split())
+_less _greater _lesseq _greatereq _alternative _index _slice _min_by _max_by _sort_by _group_by _unique_by _plus _negate toboolean isnan isinfinite isfinite isnormal ltrim rtrim trim floor ceil trunc round rint nearbyint fabs sqrt""".split())
 
 # machine-readable status of every native / operator (name/arity): how "model = documented function" is
 # established.  proved: theorem in coq/props/C03.v on all well-formed inputs; proved-partial: theorem on a
@@ -163,7 +163,7 @@ def run(tier, seed):
     except Exception as e:
         c.notes.append("builtin.jq hash comparison failed to run: %r" % (e,))
     exe_h, hlog = V.build_harness("c03")
-    st, st_sync, st_hist, skipped = {}, {}, {}, {}
+    st, st_sync, st_hist, st_jq, skipped = {}, {}, {}, {}, {}
     if exe_h is None:
         c.broken_correspondence("harness-build", None, V.tail(hlog, 40))
         return c.finish("harness did not build")
@@ -188,6 +188,13 @@ def run(tier, seed):
         c.broken_correspondence("harness-run hist", None, V.tail(out, 40))
     harness_violations(c, st_hist)
     c.evaluations += int(st_hist.get("calls") or 0)
+    # jq-defined builtins with numeric parameters at fractional / negative / zero / huge / NaN counts, under a deadline
+    rc, out, jcases, st_jq = V.run_harness("c03", "jqdef", seed, 0, tier, name="c03jq_%d" % os.getpid())
+    cleanup.append(jcases)
+    if rc != 0:
+        c.broken_correspondence("harness-run jqdef", None, V.tail(out, 40))
+    harness_violations(c, st_jq)
+    c.evaluations += int(st_jq.get("calls") or 0)
     # natives and operators
     rc, out, cases, st = V.run_harness("c03", "c03", seed, 0, tier, timeout=3000, name="c03_%d" % os.getpid())
     cleanup.append(cases)
@@ -211,7 +218,7 @@ def run(tier, seed):
             "two arguments of arity 2 (operators), structured triples for _slice/_range/fma; every call repeated with each Go "
             "representation of its numbers; compiled path `f($a;$b)` against the direct call; distinct = distinct case lines"
             % (len(dist), st.get("universe"), st.get("core")))
-    return c.finish(rule, extra_cov=dict(native_status=NATIVE_STATUS, harness_stats=st, sync_stats=st_sync, history_stats=st_hist, skipped_by_model=skipped,
+    return c.finish(rule, extra_cov=dict(native_status=NATIVE_STATUS, harness_stats=st, sync_stats=st_sync, history_stats=st_hist, jqdef_stats=st_jq, skipped_by_model=skipped,
                                          model_mismatches=nreal, spec_mismatches=nspec,
                                          name_arity_pairs=len(dist)))
 
@@ -220,6 +227,13 @@ def replay(path):
     d = json.load(open(path))
     case = d.get("case")
     print(json.dumps({k: d[k] for k in d if k in ("property", "what", "case", "details")}, indent=1))
+    if case and case.startswith("jqdef:"):
+        exe_h, hlog = V.build_harness("c03")
+        rc, out, jcases, st_jq = V.run_harness("c03", "jqdef", 1, 0, "quick", name="c03jqreplay")
+        hits = [v for v in (st_jq.get("impl_violations") or []) if v.partition(" :: ")[0] == case]
+        for v in hits:
+            print("REPRODUCED:", v)
+        return 1 if hits else 0
     if not case or ("(call " not in case and "(hist " not in case):
         print("no replayable native call in this record; re-running the check")
         return run("quick", d.get("seed", 1))
